@@ -18,6 +18,23 @@ CLAIMED = {
              technique="stateless model checking of the implementation + history/chain oracles", ref="§7 C04"),
  "C07": dict(text="The pointee payload is a race cell: written by the creator before the store, read through every kind of handle, written by the destructor. A FastTrack-style vector-clock detector over the model's happens-before relation reports any unordered pair, on every explored execution including stale reads.",
              technique="stateless model checking of the implementation with a vector-clock data-race detector on the pointee", ref="§7 C07"),
+
+ "C05": dict(text="compare_and_swap against a reader, against an A-B-A writer (store b, store a again between the internal load and the exchange), against a second compare_and_swap, and with a current value that is not stored; spurious failures of the weak exchange are enumerated. Oracles: history linearizable with CAS semantics (replaces iff stored == current, returns the previous value), counts exact (the rejected new value is released exactly once).",
+             technique="stateless model checking of the implementation + linearizability check with compare-and-swap semantics", ref="§7 C05"),
+ "C06": dict(text="Two concurrent rcu increments, rcu against store / swap / reader, and a re-entrant closure (loads the same and another container, nested rcu). Oracles: final counter equals the successful updates in history order (no lost update), history linearizable with rcu as an atomic read-modify-write, every value created by a discarded attempt is dead at the end and was never returned by any load.",
+             technique="stateless model checking of the implementation + history / lost-update oracles", ref="§7 C06"),
+ "C08": dict(text="Adversary schedule family enumerated completely: for a reader holding 0, 1, S, S+1 guards on every path, every distribution of up to 4 complete writer calls over the gaps between the reader's own steps; plus all preemption-bounded harnesses. Oracles: absolute cap on a load's own steps, and a relational one: the maximum does not grow from 2 to 4 interfering writes (a retry loop would).",
+             technique="stateless model checking of the implementation under an adversarial scheduler; per-call step counting", ref="§7 C08, §6.2"),
+ "C09": dict(text="Every explored prefix of every harness is followed by a suffix in which the running thread proceeds alone while all others stay frozen where they are (mid-load, inside the read-intent window, inside a debt walk, holding guards); every store, swap, compare_and_swap, rcu, into_inner, container drop and guard drop must finish within a cap of its own steps. A spin-wait or deadlock exceeds the cap.",
+             technique="stateless model checking of the implementation; solo-completion probe from every explored state with per-call step caps", ref="§7 C09, §6.2"),
+ "C10": dict(text="Guards held across writes (1, S, S+1 of them), released in enumerated orders and through Guard::into_inner, guards outliving a consumed or dropped container, guards moved to another thread after their creator exited while a new thread claims the creator's node. Oracles: identity seen through each guard at every use, poison, exact counts at quiescence.",
+             technique="stateless model checking of the implementation + snapshot/identity oracle", ref="§7 C10"),
+ "C11": dict(text="Strictly sequential thread churn (node count must stay 1), a thread exiting while another starts while a writer walks the list, operations after thread-local teardown (temporary node path), a pointee destructor that uses a container. Oracles: node-count bounds through the introspection hook, no node owned at the end, the crate's own debug assertions, all C01-C03 oracles.",
+             technique="stateless model checking of the implementation with engine-managed thread-local storage and thread exit as explored events", ref="§7 C11"),
+ "C12": dict(text="A reader of container A (on every path) against writers of container B sharing the same per-thread node, optionally a writer of A, optionally one value stored in both; a variant where B has a different pointee type so that a mis-directed help or payment is a type-tag violation. Oracles: per-container linearizability, provenance of every loaded identity, exact counts.",
+             technique="stateless model checking of the implementation + per-container history and provenance oracles", ref="§7 C12"),
+ "C13": dict(text="Panic oracle on every engine harness (debug assertions on), plus the generation wrap-around family: the helping generation counter is preset 1 and 2 transactions before its wrap (through a hook), then fallback loads run against a helping writer, including the case where the wrap happens in the nested load a writer performs while helping. The unchanged tree violated this (fixed by /repo commit bdc6940, see known_findings.json).",
+             technique="stateless model checking of the implementation with the transaction counter preset near its maximum; panic / abort oracle", ref="§7 C13, §8.1"),
 }
 
 NOT_YET = {
